@@ -15,7 +15,7 @@ RULE = ('pairs of HRGs built from shared skeletons (same node ids and nontermina
         'non-trivial = at least one conjoinable rule pair with a nonterminal edge')
 ASSUMPTIONS = ['the derivation bijection is a theorem about the model (C17b, hypothesis Cj.wfHRG evaluated on every generated grammar); on the implementation derivations are additionally counted to depth 3 against paired derivations']
 
-NT_NAMES = ['X', 'Y', 'Z', 'X,Y', 'Y,Z', 'S', 'T']
+NT_NAMES = ['X', 'Y', 'Z', 'X,Y', 'Y,Z', 'S', 'T', '<X,Y>', '<X,Y>_1', '<Y,X>']   # incl. names that look like pairs already
 
 
 def make_pair(rng, *, shared_terminal_ids=False, mixed_ids=False, term_conflict=False):
@@ -28,13 +28,19 @@ def make_pair(rng, *, shared_terminal_ids=False, mixed_ids=False, term_conflict=
     types = [[rng.choice(nls) for _ in range(rng.randint(0, 2))] for _ in range(n_nt)]
     N1 = [EdgeLabel(n, t, is_nonterminal=True) for n, t in zip(names1, types)]
     N2 = [EdgeLabel(n, t, is_nonterminal=True) for n, t in zip(names2, types)]
-    tnames = ['a', 'b', 'c', '<X,Y>', '<X,Y,Z>']
+    tnames = [t_ for t_ in ['a', 'b', 'c', '<X,Y>', '<X,Y,Z>'] if t_ not in names1 and t_ not in names2]   # one name, one label per grammar
     ttypes = {n: [rng.choice(nls) for _ in range(rng.randint(0, 2))] for n in tnames}
     T1 = {n: EdgeLabel(n, ttypes[n], is_terminal=True) for n in tnames}
     T2 = dict(T1)
     if term_conflict:
         n = rng.choice(tnames)
-        T2[n] = EdgeLabel(n, ttypes[n] + [A], is_terminal=True)
+        if ttypes[n] and rng.random() < 0.6:
+            # same name, same arity, another node label at one position
+            i = rng.randrange(len(ttypes[n]))
+            ty = list(ttypes[n]); ty[i] = B if ty[i] == A else A
+            T2[n] = EdgeLabel(n, ty, is_terminal=True)
+        else:
+            T2[n] = EdgeLabel(n, ttypes[n] + [A], is_terminal=True)
     g1, g2 = HRG(N1[0]), HRG(N2[0])
     n_skel = rng.randint(1, 4)
     used_conflict = False
@@ -188,12 +194,12 @@ def conjoinable_spec(r1, r2):
 
 
 def run(ctx):
-    n = 250 if ctx.quick else 4000
+    n = 500 if ctx.quick else 4000
     reqs, meta = [], []
     g1s, g2s = {}, {}
     for k in range(n):
         c = ctx.rng.random()
-        flags = dict(shared_terminal_ids=0.80 <= c < 0.88, mixed_ids=0.88 <= c < 0.94, term_conflict=0.94 <= c)
+        flags = dict(shared_terminal_ids=0.74 <= c < 0.82, mixed_ids=0.82 <= c < 0.87, term_conflict=0.87 <= c)
         if k == 0:
             # corpus: the minimal input of the recorded finding D15 (shared terminal edge id)
             flags = dict(shared_terminal_ids=True, mixed_ids=False, term_conflict=False)
@@ -202,6 +208,16 @@ def run(ctx):
             g1, g2 = HRG(S1), HRG(S2)
             for g, S in ((g1, S1), (g2, S2)):
                 rhs = Graph(); rhs.add_node(v); rhs.add_edge(Edge(ta, [v], id='e')); g.add_rule(HRGRule(S, rhs))
+        elif k == 1:
+            # corpus: a terminal of the same name and arity but another node label in the two grammars, used only in rules that are
+            # not conjoinable with each other (nothing downstream trips over it): a genuine conflict that must be reported
+            flags = dict(shared_terminal_ids=False, mixed_ids=False, term_conflict=True)
+            A, B = NodeLabel('A'), NodeLabel('B')
+            S1 = EdgeLabel('S', [], is_nonterminal=True); S2 = EdgeLabel('T', [], is_nonterminal=True)
+            g1, g2 = HRG(S1), HRG(S2)
+            for g, S, nl, nid in ((g1, S1, A, 'v'), (g2, S2, B, 'w')):
+                rhs = Graph(); v = Node(nl, nid); rhs.add_node(v)
+                rhs.add_edge(Edge(EdgeLabel('f', [nl], is_terminal=True), [v], id='e' + nid)); g.add_rule(HRGRule(S, rhs))
         else:
             g1, g2 = make_pair(ctx.rng, **flags)
         case = dict(g1=enc_hrg(g1), g2=enc_hrg(g2), flags={k: v for k, v in flags.items() if v})
